@@ -130,6 +130,8 @@ def gen_case(rng, tier):
             "pretrain": rng.choice([0, 0, 1, 2]),
             "X": L(X), "probe": L(probe), "chain": _gen_chain(rng, True),
             "legacy_at": 0 if c > 8 else rng.choice([None, 0]),
+            # parameter arrays handed to the setters in another floating dtype
+            "pdtype": rng.choice(["float64"] * 9 + ["float32", "float16"]),
         }
     src = rng.choice(["acc", "acc", "zero", "values"])
     return {
@@ -177,11 +179,12 @@ def _build_machine(case):
         m = GMMMachine(case["c"], trainer="map", ubm=prior, **kw)
         return m, prior
     m = GMMMachine(case["c"], **kw)
-    m.weights = A(case["weights"])
-    m.means = A(case["means"])
+    pd = getattr(np, case.get("pdtype", "float64"))
+    m.weights = A(case["weights"]).astype(pd)
+    m.means = A(case["means"]).astype(pd)
     if case.get("floor") is not None:
         m.variance_thresholds = _floor(case["floor"])
-    m.variances = A(case["variances"])
+    m.variances = A(case["variances"]).astype(pd)
     return m, None
 
 
@@ -327,6 +330,7 @@ def _run_machine(case, rec, store):
         live.max_fitting_steps = case["max_steps"]
         rec.probe("pretrained")
     rec.probe("map_machine", case["kind"] == "map")
+    rec.probe("non_float64_parameters", case.get("pdtype", "float64") != "float64")
     rec.probe("machine_with_10_or_more_components", case["c"] >= 10)
     rec.probe("limit_none", case["max_steps"] is None)
     rec.probe("threshold_none", case["thr"] is None)
@@ -399,7 +403,8 @@ def _run_machine(case, rec, store):
             if diff is not None:
                 return Result.violation("resaved-file-differs", {"step": i, "diff": diff})
             rec.probe("resave_compared")
-        if case.get("legacy_at") == i:
+        if case.get("legacy_at") == i and case.get("pdtype", "float64") == "float64":
+            # (legacy files hold float64 arrays only)
             lp = store.slot()
             _write_legacy_machine(live, lp)
             try:
